@@ -361,6 +361,22 @@ class PartialJoin(UnaryOperation):
                     done=False,
                     messages=("join-deduplication commutation is not supported",),
                 )
+            case Projection() if not self.fixed.columns.isdisjoint(
+                current.target.columns - current.columns
+            ):
+                # Columns removed by the Projection would become visible to the
+                # join again (and be confused with same-tag columns of the
+                # fixed relation) if the join were moved upstream of it.
+                return UnaryCommutator(
+                    first=None,
+                    second=current.operation,
+                    done=False,
+                    messages=(
+                        f"{current.operation} removes columns "
+                        f"{set((current.target.columns - current.columns) & self.fixed.columns)} "
+                        "that the join would reintroduce",
+                    ),
+                )
             case Projection():
                 # In order for projection(join(target)) to be equivalent to
                 # join(projection(target)), the new outer projection has to
